@@ -198,9 +198,18 @@ def run_api(case: dict) -> CaseResult:
     cli = make_client(env, noise_psk=base64.b64encode(KEY).decode(), expected_name=expected)
     got = []
 
+    sent_expect: list = []
+
     async def flow():
+        from aioesphomeapi import api_pb2 as pb
+
         await cli.connect(login=True)
         cli.subscribe_states(got.append)
+        # the responder must also be able to read what the client sends afterwards (sizes around the 256-byte carries)
+        for n in case.get("send_sizes", []):
+            m = pb.VoiceAssistantAudio(data=bytes((i * 7 + n) & 0xFF for i in range(n)))
+            sent_expect.append(m.SerializeToString())
+            cli._get_connection().send_message(m)
         await asyncio.sleep(1)
         await cli.disconnect()
 
@@ -234,6 +243,10 @@ def run_api(case: dict) -> CaseResult:
     for s in dev.sessions:
         if s.wire_errors:
             res.violations.append(Violation(ID, "c03:api:device-cannot-decode", s.wire_errors[0]))
+    if outcome == "ok" and sent_expect:
+        got_audio = [p_ for s in dev.sessions for (_q, t_, p_) in s.rx if t_ == 106]
+        if got_audio != sent_expect:
+            res.violations.append(Violation(ID, "c03:api:responder-read-different-messages", f"sent {len(sent_expect)} messages of sizes {case.get('send_sizes')}, responder decoded {[len(x) for x in got_audio]}"))
     res.classes = ["api"] + (["name_rejected"] if not accept_name(name, expected) else [])
     res.nontrivial = bool(case.get("cuts"))
     res.info = {"outcome": outcome}
@@ -254,6 +267,7 @@ def _case(draw, tier):
             "expected": draw(st.sampled_from([None, None, "dev", "kitchen"])),
             "cuts": draw(st.lists(st.integers(0, 70), max_size=4)),
             "msgs": [],
+            "send_sizes": draw(st.lists(st.one_of(st.integers(0, 600), st.sampled_from([230, 233, 236, 250, 252, 255, 256, 488, 492, 508, 1000, 4090, 16000])), max_size=5)),
         }
     key = draw(st.one_of(st.binary(min_size=32, max_size=32), st.sampled_from([bytes(32), b"\xff" * 32, bytes(range(32))])))
     name = draw(st.one_of(st.sampled_from(NAMES), st.text(alphabet=st.characters(blacklist_characters="\x00", blacklist_categories=("Cs",)), max_size=10)))
@@ -322,3 +336,5 @@ def enumerated(tier):
         for exp in (None, "dev", "kitchen"):
             for cuts in ([], [2], [5, 9], [30], [57, 58]):
                 yield {"mode": "api", "server_name": name, "expected": exp, "cuts": cuts, "msgs": []}
+    for lo in range(0, 520, 8):
+        yield {"mode": "api", "server_name": "dev", "expected": "dev", "cuts": [], "msgs": [], "send_sizes": list(range(lo, lo + 8))}
